@@ -32,9 +32,9 @@ def main():
         open(p, "w").write(s)
     verif_head = sh("git -C /verif rev-parse --short HEAD", "/")[1].strip()
     only = sys.argv[1:]
-    for m in sorted(glob.glob("/tmp/mut/C??/MUTANT/[12]")):
-        prop = m.split("/")[3]; n = m.split("/")[5]
-        tag = "%s-%s" % (prop, n)
+    for m in sorted(glob.glob("/tmp/mut/*C??/MUTANT/[0-9]")):
+        dn = m.split("/")[3]; prop = dn[-3:]; n = m.split("/")[5]
+        tag = "%s-%s%s" % (prop, "" if dn == prop else "b", n)
         if only and tag not in only:
             continue
         meta = json.load(open(os.path.join(m, "meta.json")))
@@ -48,7 +48,7 @@ def main():
             dst = os.path.join(WT, rel)
             os.makedirs(os.path.dirname(dst), exist_ok=True)
             shutil.copy(srcp, dst); placed.append(dst)
-        demo = meta["demo_cmd"].replace("/tmp/mut/%s" % prop, WT)
+        demo = meta["demo_cmd"].replace("/tmp/mut/%s" % dn, WT)
         demo = re.sub(r"cp\s+\S*MUTANT\S*\s+\S+\s*&&", "", demo)  # the demo files are already in place
         rc0, out0 = sh(demo, WT)
         res["demo_without_patch_rc"] = rc0
